@@ -63,6 +63,45 @@ Theorem C18_last_entry_from_source : forall enc_peppi enc_meta enc_start enc_end
   map (fun x => sb (fst x)) (filter snd slpp_read_names) = [last (map fst es) []].
 Proof. exact slpp_last_entry_from_source. Qed.
 
+From Coq Require Import String.
+From Peppi Require Import Gen.SlppHelpers Proofs.SlppHelpersLayout.
+(* ---- the helper readers of the .slpp reader and the blob writer, regenerated (Gen/SlppHelpers.v) ----
+   gecko_codes.raw: the same 4-byte little-endian prefix on both sides, the reader's arm with its short-entry error *)
+Theorem C18_gecko_blob_from_source :
+  (forall dp dm df skip p c r a, kind_of p = KGecko ->
+    read_entries dp dm df skip ((p, c) :: r) a =
+      if Nat.ltb (List.length c) slpp_gecko_size_len then Err EIo
+      else read_entries dp dm df skip r
+             (upd a (ra_start a) (ra_end a) (ra_meta a)
+                  (Some {| gk_bytes := skipn slpp_gecko_size_len c;
+                           gk_actual := dec_size slpp_gecko_read_little_endian (firstn slpp_gecko_size_len c) |})
+                  (ra_frames a) (ra_peppi a))) /\
+  (forall enc_peppi enc_meta enc_start enc_end enc_frames c g es k,
+    slpp_write enc_peppi enc_meta enc_start enc_end enc_frames c g = Ok es -> g_gecko (sg_game g) = Some k ->
+    In (name_of KGecko, enc_size slpp_gecko_write_little_endian (gk_actual k) ++ gk_bytes k)%list es) /\
+  (forall n, List.length (enc_size slpp_gecko_write_little_endian n) = slpp_gecko_size_len /\
+             dec_size slpp_gecko_read_little_endian (enc_size slpp_gecko_write_little_endian n) = (n mod 4294967296)%N).
+Proof. exact (conj gecko_arm_from_source (conj gecko_write_from_source gecko_size_agrees)). Qed.
+(* metadata.json: null is "no metadata", an object is the map, anything else is refused; each helper is called from the arm
+   of the entry the model reads it from; peppi.json: decode, check the format version, store -- and the version check refuses
+   exactly the versions below the regenerated minimum *)
+Theorem C18_metadata_arms_from_source :
+  meta_of_shape slpp_meta_arms MsNull = Some None /\
+  (forall m, meta_of_shape slpp_meta_arms (MsObject m) = Some (Some m)) /\
+  (forall v, v <> "Null"%string -> v <> "Object"%string -> meta_of_shape slpp_meta_arms (MsOther v) = None).
+Proof. exact meta_arms_from_source. Qed.
+Theorem C18_helper_calls_from_source :
+  map (fun x => (kind_of (sb (fst (fst (fst x)))), snd (fst x), snd x)) slpp_read_calls =
+    [(KStartRaw, "read_peppi_start"%string, true); (KEndRaw, "read_peppi_end"%string, true);
+     (KMeta, "read_peppi_metadata"%string, false); (KGecko, "read_peppi_gecko_codes"%string, true)].
+Proof. exact slpp_read_calls_from_source. Qed.
+Theorem C18_peppi_arm_from_source : forall dp dm df skip p c r a, kind_of p = KPeppi ->
+  kind_of (sb slpp_peppi_entry) = KPeppi /\
+  read_entries dp dm df skip ((p, c) :: r) a = (a' <- run_peppi slpp_peppi_arm dp c None a ;; read_entries dp dm df skip r a').
+Proof. exact peppi_arm_from_source. Qed.
+Theorem C18_version_check_from_source : forall v, assert_current_version_ok v = version_le PEPPI_MIN_VERSION v.
+Proof. exact assert_current_version_from_source. Qed.
+
 Print Assumptions C18_entry_order.
 Print Assumptions C18_entries_consistent.
 Print Assumptions C18_signature_at_offset_0.
@@ -72,3 +111,8 @@ Print Assumptions C18_min_version.
 Print Assumptions C18_written_entries_from_source.
 Print Assumptions C18_read_names_from_source.
 Print Assumptions C18_last_entry_from_source.
+Print Assumptions C18_gecko_blob_from_source.
+Print Assumptions C18_metadata_arms_from_source.
+Print Assumptions C18_helper_calls_from_source.
+Print Assumptions C18_peppi_arm_from_source.
+Print Assumptions C18_version_check_from_source.
